@@ -1008,6 +1008,243 @@ end DpapiNg.Gen
 
 
 
+# ---------------------------------------------------------------------------------------------
+# ASN.1 writer programs: a `pack(self, writer)` method made of nested `with w.push_sequence(...) as w2:` blocks around
+# `w.write_*(self.f[, ASN1Tag(...)])`, `self.f.pack(w)`, `if self.f:` and `for x in self.f: x.pack(w)` is translated statement
+# by statement into a `List WProg.Op`; `Proofs/WProg.lean` proves the hand-written pack model is the interpretation of that
+# program.  Every statement must write to the innermost open writer (anything else changes the byte order and is Unsupported).
+def W(name, props, file, cls, model):
+    return dict(name=name, props=props, file=file, func=cls + ".pack", kind="wprog", loc=("wprog",), model=model,
+                imports=["Proofs.WProg"], typ="List WProg.Op")
+
+
+KERNELS += [
+    W("WProgAlgId", ["C06", "C04"], "_pkcs7.py", "AlgorithmIdentifier", "Blob.algIdProg"),
+    W("WProgOtherAttr", ["C06"], "_pkcs7.py", "OtherKeyAttribute", "Blob.otherAttrProg"),
+    W("WProgKekId", ["C06"], "_pkcs7.py", "KEKIdentifier", "Blob.kekIdProg"),
+    W("WProgKekRi", ["C06", "C04"], "_pkcs7.py", "KEKRecipientInfo", "Blob.kekRiProg"),
+    W("WProgEncContentInfo", ["C06", "C04", "C01"], "_pkcs7.py", "EncryptedContentInfo", "Blob.encContentInfoProg"),
+    W("WProgEnvelopedData", ["C06"], "_pkcs7.py", "EnvelopedData", "Blob.envelopedDataProg"),
+    W("WProgContentInfo", ["C06"], "_pkcs7.py", "ContentInfo", "Blob.contentInfoProg"),
+    W("WProgProtDesc", ["C06", "C08"], "_blob.py", "ProtectionDescriptor", "Blob.protDescProg"),
+]
+
+_WRITE_OPS = {"write_integer": "int", "write_object_identifier": "oid", "write_octet_string": "octets",
+              "write_generalized_time": "genTime", "write_utf8_string": "utf8", "write_raw": "raw"}
+
+
+def _class_node(tree, cls):
+    for n in tree.body:
+        if isinstance(n, ast.ClassDef) and n.name == cls:
+            return n
+    raise Unsupported(f"class {cls} not found")
+
+
+def _tag_classes():
+    """TagClass member → value, read from _asn1.py's current source"""
+    t = ast.parse(open(os.path.join(SRC, "_asn1.py")).read())
+    out = {}
+    for st in _class_node(t, "TagClass").body:
+        if isinstance(st, ast.Assign) and len(st.targets) == 1 and isinstance(st.targets[0], ast.Name) and isinstance(st.value, ast.Constant) \
+                and isinstance(st.value.value, int):
+            out[st.targets[0].id] = st.value.value
+    fields = [st.target.id for st in _class_node(t, "ASN1Tag").body if isinstance(st, ast.AnnAssign) and isinstance(st.target, ast.Name)]
+    return out, fields
+
+
+def _field_default(clsnode, name):
+    for st in clsnode.body:
+        if isinstance(st, ast.AnnAssign) and isinstance(st.target, ast.Name) and st.target.id == name and st.value is not None:
+            v = st.value
+            if isinstance(v, ast.Constant) and isinstance(v.value, int) and not isinstance(v.value, bool):
+                return v.value
+            if isinstance(v, ast.Call) and ast.unparse(v.func) in ("dataclasses.field", "field"):
+                for kw in v.keywords:
+                    if kw.arg == "default" and isinstance(kw.value, ast.Constant) and isinstance(kw.value.value, int):
+                        return kw.value.value
+    raise Unsupported(f"no integer default for self.{name}")
+
+
+def _field_class(clsnode, name, want_list=False):
+    """class named by the annotation of dataclass field `name` (through Optional[...] / List[...])"""
+    for st in clsnode.body:
+        if isinstance(st, ast.AnnAssign) and isinstance(st.target, ast.Name) and st.target.id == name:
+            a = st.annotation
+            seen_list = False
+            while isinstance(a, ast.Subscript):
+                head = ast.unparse(a.value)
+                if head in ("t.Optional", "typing.Optional", "Optional"):
+                    a = a.slice
+                elif head in ("t.List", "typing.List", "List", "list"):
+                    seen_list = True
+                    a = a.slice
+                else:
+                    raise Unsupported(f"annotation {ast.unparse(st.annotation)}")
+            if isinstance(a, ast.Constant) and isinstance(a.value, str):
+                a = ast.parse(a.value, mode="eval").body
+            if not isinstance(a, ast.Name) or seen_list != want_list:
+                raise Unsupported(f"annotation {ast.unparse(st.annotation)} of {name}")
+            return a.id
+    raise Unsupported(f"field {name} has no annotation")
+
+
+def _asn1_tag(node, clsnode):
+    """Lean `Option Tag` for an `ASN1Tag(...)` expression"""
+    classes, order = _tag_classes()
+    if not (isinstance(node, ast.Call) and ast.unparse(node.func) == "ASN1Tag"):
+        raise Unsupported(f"tag expression {ast.unparse(node)[:60]}")
+    vals = {}
+    for i, a in enumerate(node.args):
+        if i >= len(order):
+            raise Unsupported("too many ASN1Tag arguments")
+        vals[order[i]] = a
+    for kw in node.keywords:
+        if kw.arg in vals or kw.arg not in order:
+            raise Unsupported(f"ASN1Tag keyword {kw.arg}")
+        vals[kw.arg] = kw.value
+    if set(vals) != {"tag_class", "tag_number", "is_constructed"}:
+        raise Unsupported(f"ASN1Tag arguments {sorted(vals)}")
+    c = ast.unparse(vals["tag_class"])
+    if not c.startswith("TagClass.") or c[9:] not in classes:
+        raise Unsupported(f"tag class {c}")
+    n = vals["tag_number"]
+    if isinstance(n, ast.Constant) and isinstance(n.value, int) and not isinstance(n.value, bool) and n.value >= 0:
+        num = n.value
+    elif ast.unparse(n).startswith("self.") and ast.unparse(n).count(".") == 1:
+        num = _field_default(clsnode, ast.unparse(n)[5:])
+    else:
+        raise Unsupported(f"tag number {ast.unparse(n)}")
+    k = vals["is_constructed"]
+    if not (isinstance(k, ast.Constant) and isinstance(k.value, bool)):
+        raise Unsupported(f"is_constructed {ast.unparse(k)}")
+    return f"(some ⟨{classes[c[9:]]}, {num}, {'true' if k.value else 'false'}⟩)"
+
+
+def _self_field(node):
+    t = ast.unparse(node)
+    if t.startswith("self.") and all(part.isidentifier() for part in t.split(".")) and t.count(".") in (1, 2):
+        return t[5:]
+    raise Unsupported(f"not a field of self: {t[:60]}")
+
+
+def wprog_ops(fn, clsnode):
+    body = [st for st in fn.body if not (isinstance(st, ast.Expr) and isinstance(st.value, ast.Constant))]
+    params = [a.arg for a in fn.args.args]
+    if params == ["self", "writer"]:
+        root = "writer"
+    elif params == ["self"]:
+        # `writer = ASN1Writer()` … `return writer.get_data()`
+        if not (len(body) >= 2 and isinstance(body[0], ast.Assign) and len(body[0].targets) == 1 and isinstance(body[0].targets[0], ast.Name)
+                and ast.unparse(body[0].value) == "ASN1Writer()"):
+            raise Unsupported("pack(self) does not start with `writer = ASN1Writer()`")
+        root = body[0].targets[0].id
+        if not (isinstance(body[-1], ast.Return) and body[-1].value is not None and ast.unparse(body[-1].value) == f"{root}.get_data()"):
+            raise Unsupported("pack(self) does not end with `return writer.get_data()`")
+        body = body[1:-1]
+    else:
+        raise Unsupported(f"pack parameters {params}")
+
+    def tag_arg(call, pos):
+        """optional tag of a write_* / push_* call: positional at `pos` or keyword `tag`"""
+        tags = [a for a in call.args[pos:]] + [kw.value for kw in call.keywords if kw.arg == "tag"]
+        if len(call.args) > pos + 1 or any(kw.arg != "tag" for kw in call.keywords) or len(tags) > 1:
+            raise Unsupported(f"arguments of {ast.unparse(call)[:60]}")
+        return _asn1_tag(tags[0], clsnode) if tags else "none"
+
+    def stmts(sts, w):
+        out = []
+        for st in sts:
+            if isinstance(st, ast.With):
+                if len(st.items) != 1 or not isinstance(st.items[0].optional_vars, ast.Name):
+                    raise Unsupported("with statement form")
+                call = st.items[0].context_expr
+                if not (isinstance(call, ast.Call) and isinstance(call.func, ast.Attribute) and isinstance(call.func.value, ast.Name)
+                        and call.func.value.id == w):
+                    raise Unsupported(f"with on {ast.unparse(call)[:50]} while the open writer is {w}")
+                inner = stmts(st.body, st.items[0].optional_vars.id)
+                if call.func.attr == "push_sequence":
+                    out.append(f".seq {tag_arg(call, 0)} [{', '.join(inner)}]")
+                elif call.func.attr in ("push_set_of", "push_set"):
+                    if call.args or call.keywords:
+                        raise Unsupported("tagged set")
+                    out.append(f".setOf [{', '.join(inner)}]")
+                else:
+                    raise Unsupported(f"with {call.func.attr}")
+            elif isinstance(st, ast.Expr) and isinstance(st.value, ast.Call) and isinstance(st.value.func, ast.Attribute):
+                call = st.value
+                tgt = call.func.value
+                if isinstance(tgt, ast.Name) and tgt.id == w and call.func.attr in _WRITE_OPS:
+                    if not call.args:
+                        raise Unsupported(f"{call.func.attr} without a value")
+                    f = _self_field(call.args[0])
+                    op = _WRITE_OPS[call.func.attr]
+                    if op == "octets":
+                        out.append(f'.octets "{f}" {tag_arg(call, 1)}')
+                    else:
+                        if len(call.args) != 1 or call.keywords:
+                            raise Unsupported(f"arguments of {ast.unparse(call)[:60]}")
+                        out.append(f'.{op} "{f}"')
+                elif call.func.attr == "pack" and len(call.args) == 1 and not call.keywords and isinstance(call.args[0], ast.Name) and call.args[0].id == w:
+                    f = _self_field(tgt)
+                    out.append(f'.sub "{f}" "{_field_class(clsnode, f)}"')
+                else:
+                    raise Unsupported(f"statement {ast.unparse(st)[:60]} (open writer {w})")
+            elif isinstance(st, ast.If) and not st.orelse:
+                f = _self_field(st.test)
+                out.append(f'.ifTruthy "{f}" [{", ".join(stmts(st.body, w))}]')
+            elif isinstance(st, ast.For) and not st.orelse and isinstance(st.target, ast.Name) and len(st.body) == 1:
+                f = _self_field(st.iter)
+                b = st.body[0]
+                if not (isinstance(b, ast.Expr) and isinstance(b.value, ast.Call) and ast.unparse(b.value) == f"{st.target.id}.pack({w})"):
+                    raise Unsupported(f"loop body {ast.unparse(b)[:60]}")
+                out.append(f'.each "{f}" "{_field_class(clsnode, f, want_list=True)}"')
+            else:
+                raise Unsupported(f"statement {ast.unparse(st)[:60]}")
+        return out
+    return stmts(body, root)
+
+
+def generate_wprog(k: dict) -> dict:
+    path = os.path.join(SRC, k["file"])
+    out = {"name": k["name"], "file": k["file"], "func": k["func"]}
+    try:
+        tree = ast.parse(open(path).read())
+        fn = find_function(tree, k["func"])
+        out["line"] = fn.lineno
+        ops = wprog_ops(fn, _class_node(tree, k["func"].split(".")[0]))
+        out["python"] = f"{k['func']}: writer program of {len(ops)} top-level statement(s)"
+    except (Unsupported, OSError, SyntaxError, ValueError, LookupError) as e:
+        out["status"] = "unsupported"
+        out["reason"] = f"{type(e).__name__}: {e}"
+        p = os.path.join(GEN_DIR, k["name"] + ".lean")
+        if os.path.exists(p):
+            os.remove(p)
+        return out
+    name = k["name"]
+    body = "[" + ", ".join(ops) + "]"
+    lean = f"""-- GENERATED by harness/extract.py from src/dpapi_ng/{k['file']}:{out['line']} ({k['func']}) — do not edit.
+import DpapiNg.Proofs.WProg
+namespace DpapiNg.Gen
+open DpapiNg DpapiNg.WProg
+
+def {name} : List Op :=
+  {body}
+
+theorem {name}_eq : {name} = {k['model']} := by
+  rfl
+
+end DpapiNg.Gen
+"""
+    os.makedirs(GEN_DIR, exist_ok=True)
+    p = os.path.join(GEN_DIR, name + ".lean")
+    old = open(p).read() if os.path.exists(p) else None
+    if old != lean:
+        with open(p, "w") as f:
+            f.write(lean)
+    out.update(status="generated", lean_path=p, lean_def=body, module=f"DpapiNg.Gen.{name}", sha=hashlib.sha256(lean.encode()).hexdigest()[:16])
+    return out
+
+
 def register(k: dict) -> None:
     KERNELS.append(k)
 
@@ -1026,6 +1263,8 @@ def generate(k: dict) -> dict:
         return generate_plan(k)
     if k.get("kind") == "fields":
         return generate_fields(k)
+    if k.get("kind") == "wprog":
+        return generate_wprog(k)
     path = os.path.join(SRC, k["file"])
     out = {"name": k["name"], "file": k["file"], "func": k["func"]}
     try:
